@@ -292,6 +292,23 @@ def _final_check(c, neg, timeout_ms, quick_only=False):
     return "unknown", None, "z3"
 
 
+class PathTimeout(BaseException):
+    """the code under test ran longer than the per-path budget (BaseException: `except Exception` cannot eat it)"""
+
+
+def _alarm(seconds):
+    import signal
+    import threading
+    if threading.current_thread() is not threading.main_thread() or not hasattr(signal, "SIGALRM"):
+        return
+
+    def handler(signum, frame):
+        raise PathTimeout(f"path exceeded its wall-clock budget")
+    if seconds:
+        signal.signal(signal.SIGALRM, handler)
+    signal.alarm(seconds)
+
+
 def run_path(case: Case, prefix, solver, pending, opts, profile=False):
     import torch
     timeout_ms = opts["timeout_ms"]
@@ -314,11 +331,16 @@ def run_path(case: Case, prefix, solver, pending, opts, profile=False):
     try:
         if profile:
             sys.setprofile(prof)
+        _alarm(int(opts.get("path_timeout_s", 900)))
         try:
             obs = case.run(v)
         finally:
+            _alarm(0)
             if profile:
                 sys.setprofile(None)
+    except PathTimeout as ex:
+        out["status"] = "error"
+        out["errors"].append(f"PathTimeout: {ex} (a loop of the code under test does not terminate on this path, or the path is too expensive)")
     except PathAbort:
         out["status"] = "infeasible"
     except StopRun:
